@@ -71,7 +71,7 @@ def program(draw):
     for j in range(draw(st.integers(0, 2))):
         steps.append({"op": "put-raw", "name": f"broken{j}.ics", "body": enc_body(draw(st.sampled_from([b"this is not a calendar", b"BEGIN:VCALENDAR\r\nBEGIN:VEVENT\r\nSUMMARY:unterminated", b"\xff\xfe\x00binary"])))})
     for _ in range(draw(st.integers(8, 20))):
-        op = draw(st.sampled_from(["burst", "burst", "burst", "query", "query", "put", "delete", "restart", "put-raw"]))
+        op = draw(st.sampled_from(["burst", "burst", "burst", "query", "query", "put", "delete", "restart", "put-raw", "repair"]))
         if op == "burst":
             steps.append({"op": "query", "filter": draw(st.integers(0, len(filters) - 1)), "repeat": draw(st.integers(2, 8))})
         elif op == "query":
@@ -83,6 +83,11 @@ def program(draw):
             steps.append({"op": "delete", "name": draw(st.sampled_from(names))})
         elif op == "put-raw":
             steps.append({"op": "put-raw", "name": "broken9.ics", "body": enc_body(b"garbage " + str(draw(st.integers(0, 3))).encode())})
+        elif op == "repair":
+            # an unparseable stored file is replaced by a valid object under the same name
+            bn = draw(st.sampled_from(["broken0.ics", "broken1.ics", "broken9.ics"]))
+            steps.append({"op": "delete", "name": bn})
+            steps.append({"op": "put", "name": bn, "body": enc_body(draw(gen.calendar_object(uid="repaired-" + bn[6], style=plain))["raw"])})
         else:
             steps.append({"op": "restart"})
     return {"filters": filters, "steps": steps, "tz": draw(st.sampled_from(["UTC", "Europe/Amsterdam"])), "engine": draw(st.sampled_from(["http", "http", "store"]))}
@@ -296,7 +301,7 @@ def still_fails(sig):
 def main(tier, seed):
     res = runner.CheckResult(ID, tier, seed)
     res.rule = RULE
-    shards = runner.run_shards(runner.machine_shard, seed=seed, examples=10 if tier == "quick" else 120, strategy_factory=strategy, run_one=run_one)
+    shards = runner.run_shards(runner.machine_shard, seed=seed, examples=20 if tier == "quick" else 150, strategy_factory=strategy, run_one=run_one)
     viols = runner.merge_machine(res, shards)
     for sig, v in viols.items():
         case = v["case"]
